@@ -199,6 +199,8 @@ class map_impl {
   void clear() {
     m_comm.barrier();
     m_local_map.clear();
+    // No rank may issue new operations before every rank has emptied its map.
+    m_comm.cf_barrier();
   }
 
   size_type size() {
